@@ -5,6 +5,7 @@ import (
 	"go/ast"
 	"go/token"
 	"go/types"
+	"golang.org/x/tools/go/cfg"
 	"golang.org/x/tools/go/packages"
 	"sort"
 	"strings"
@@ -1015,5 +1016,528 @@ func ruleBuildOneCriticalSection(w *World, r *Report, rule string) {
 			where = append(where, a.fi.Name()+" ("+a.op+" at "+w.Pos(a.pos)+")")
 		}
 		r.Fail(rule, entry.Name()+"#one-critical-section", acqs[1].pos, "the functions a Build runs take collection.%s %d times: %s. What is validated in one critical section and what is handed to the provider in another are two states of the registry: a registration that lands in between is served without having been graphed or validated (never constructed at Build, not checked for cycles or captive dependencies)", mu.Name(), len(acqs), strings.Join(where, ", "))
+	}
+}
+
+// ruleDisposedFlagWriters: the disposed flag of a scope / provider has two
+// states and one writer: the compare-and-swap gate of that owner's Close (or a
+// private one-line half of it). A third state (a "resetting" value), a Store
+// that re-opens an object (scope reuse, a pool), or a gate in another method make
+// Close's losing edge - "already closed: return nil" - lie: a Close that arrives
+// then returns nil and closes nothing.
+func ruleDisposedFlagWriters(w *World, r *Report, rule string) {
+	n := 0
+	for _, owner := range []string{"scope", "provider"} {
+		flag := w.Field(w.Godi, owner, "disposed")
+		if flag == nil {
+			r.Undecided(rule, owner+".disposed", token.NoPos, "the disposed flag of %s was not found", owner)
+			continue
+		}
+		closeFn := w.MustFn(w.Godi, "(*"+owner+").Close")
+		allowed := w.HelperClosure(map[*FuncInfo]string{closeFn: closeFn.Name()})
+		named, _ := w.Struct(w.Godi, owner)
+		k := 0
+		for _, a := range collectAccesses(w, nil, func(v *types.Var) bool { return v == flag }) {
+			fi := w.FuncAt(a.Sel.Pos())
+			if fi == nil {
+				continue
+			}
+			info := fi.Pkg.TypesInfo
+			write, what := false, a.Kind
+			switch a.Kind {
+			case "atomic":
+				if cal := callee(info, a.Call); cal != nil && !strings.HasPrefix(cal.Name(), "Load") {
+					write, what = true, "atomic."+cal.Name()
+				}
+			case "method":
+				if sel, ok := unparen(a.Call.Fun).(*ast.SelectorExpr); ok && sel.Sel.Name != "Load" {
+					write, what = true, "."+sel.Sel.Name
+				}
+			case "write", "incdec":
+				write = true
+			case "addr":
+				// &x.disposed handed to a private helper: judged where the helper writes through it
+				continue
+			}
+			if !write {
+				continue
+			}
+			n++
+			k++
+			_, ok := allowed[fi]
+			if !ok && named != nil && isAllocatingFunc(w, fi, named) && a.Kind == "write" {
+				ok = true
+			}
+			r.Check(ok, rule, fmt.Sprintf("%s#%s.disposed:%s/%d", fi.Name(), owner, strings.TrimPrefix(what, "atomic."), k), a.Pos(), false,
+				"the flag is written by the gate of "+closeFn.Name(),
+				fmt.Sprintf("%s writes %s.disposed (%s) outside %s: the flag has two states and one writer - an object that is re-opened, or held in a third state, makes the losing edge of Close's gate (\"already closed, return nil\") wrong: a Close that arrives meanwhile returns nil and closes nothing, and a late Close of an old holder closes the object under its new user", fi.Name(), owner, what, closeFn.Name()))
+		}
+	}
+	if n == 0 {
+		r.Fail(rule, "disposed#writers", token.NoPos, "no write of a disposed flag found (the gates of Close were expected)")
+	}
+}
+
+// ruleNoDeferredResolution: the core of resolution (resolve, createInstance,
+// setInstance) is entered only through Get / GetKeyed / GetGroup, which refuse a
+// closed container. A function literal that outlives the call that made it (it
+// is returned, stored, or handed to reflect.MakeFunc / sync.OnceValue /
+// context.AfterFunc and the like) and calls the core directly runs it later with
+// no disposed check at all: an injected factory resolves from a closed scope.
+func ruleNoDeferredResolution(w *World, r *Report, rule string) {
+	ro := resolveRoles(w)
+	core := map[*types.Func]string{}
+	for _, f := range []*FuncInfo{ro.resolve, ro.resolveTop, ro.createInstance, ro.setInstance, ro.setSingleton, ro.createEntry} {
+		if f != nil {
+			core[f.Obj] = f.Name()
+		}
+	}
+	for c := range ro.creators {
+		if t := w.Decls[c]; t != nil {
+			core[c] = t.Name()
+		}
+	}
+	lits, bad := 0, 0
+	for _, fi := range w.FuncsOf(w.Godi) {
+		info := fi.Pkg.TypesInfo
+		var all []*ast.FuncLit
+		ast.Inspect(fi.Decl.Body, func(x ast.Node) bool {
+			if l, ok := x.(*ast.FuncLit); ok {
+				all = append(all, l)
+			}
+			return true
+		})
+		k := 0
+		for _, lit := range all {
+			lits++
+			// calls made by this literal itself
+			var hit *ast.CallExpr
+			name := ""
+			ast.Inspect(lit.Body, func(x ast.Node) bool {
+				if l2, ok := x.(*ast.FuncLit); ok && l2 != lit {
+					return false
+				}
+				if c, ok := x.(*ast.CallExpr); ok {
+					if cal := callee(info, c); cal != nil {
+						if nm, isCore := core[cal]; isCore && hit == nil {
+							hit, name = c, nm
+						}
+					}
+				}
+				return true
+			})
+			if hit == nil {
+				continue
+			}
+			use := litUse(fi.Decl.Body, lit)
+			escaping, how := false, ""
+			switch use {
+			case "call", "defer":
+			case "arg":
+				// handed to a function outside the repository: it decides when (and how often) the literal runs
+				ast.Inspect(fi.Decl.Body, func(x ast.Node) bool {
+					if c, ok := x.(*ast.CallExpr); ok {
+						for _, a := range c.Args {
+							if unparen(a) == ast.Expr(lit) {
+								if cal := callee(info, c); cal == nil || w.Decls[cal] == nil {
+									escaping, how = true, "it is handed to "+exprStr(c.Fun)
+								}
+							}
+						}
+					}
+					return true
+				})
+			case "go":
+				escaping, how = true, "it runs in its own goroutine"
+			default:
+				// bound to a local that is only called here?
+				if o := litBoundTo(info, fi.Decl.Body, lit); o != nil && onlyCalled(info, fi.Decl.Body, o) {
+					break
+				}
+				escaping, how = true, "it is returned or stored"
+			}
+			if !escaping {
+				continue
+			}
+			bad++
+			k++
+			r.Fail(rule, fmt.Sprintf("%s#deferred-resolution/%d", fi.Name(), k), hit.Pos(),
+				"a function literal of %s calls %s directly and outlives the call that made it (%s): when it runs, nothing has checked that the scope or provider is still open - resolution on a closed container succeeds, or fails with another error than the disposed one", fi.Name(), name, how)
+		}
+	}
+	if bad == 0 {
+		r.OK(rule, "godi#deferred-resolution:none", token.NoPos, false, "%d function literals examined: none that outlives its maker calls resolve / createInstance / setInstance directly", lits)
+	}
+}
+
+// litBoundTo: the local variable a literal is assigned to (f := func…), or nil.
+func litBoundTo(info *types.Info, body *ast.BlockStmt, lit *ast.FuncLit) types.Object {
+	var out types.Object
+	ast.Inspect(body, func(x ast.Node) bool {
+		if as, ok := x.(*ast.AssignStmt); ok && len(as.Lhs) == len(as.Rhs) {
+			for i, rh := range as.Rhs {
+				if unparen(rh) == ast.Expr(lit) {
+					out = objOf(info, as.Lhs[i])
+				}
+			}
+		}
+		return true
+	})
+	return out
+}
+
+// onlyCalled: every use of o in body is in call position (or its definition).
+func onlyCalled(info *types.Info, body *ast.BlockStmt, o types.Object) bool {
+	calls, uses := 0, 0
+	ast.Inspect(body, func(x ast.Node) bool {
+		switch n := x.(type) {
+		case *ast.CallExpr:
+			if id, ok := unparen(n.Fun).(*ast.Ident); ok && info.Uses[id] == o {
+				calls++
+			}
+		case *ast.Ident:
+			if info.Uses[n] == o {
+				uses++
+			}
+		}
+		return true
+	})
+	return uses == calls
+}
+
+// ruleResolutionErrorsKept: a failure of resolution is reported as it is. In the
+// root package, wherever the error of Get / GetKeyed / GetGroup / resolve /
+// createInstance is bound to a variable, every return reached on that
+// variable's non-nil edge hands the variable on (as it is, or inside the error it
+// builds). A path that answers a failure with something else - a fallback to
+// another registration, a nil error - swallows the constructor's own error.
+func ruleResolutionErrorsKept(w *World, r *Report, rule string) {
+	ro := resolveRoles(w)
+	isRes := func(cal *types.Func) bool {
+		if cal == nil {
+			return false
+		}
+		if t := w.Decls[cal]; t != nil && (t == ro.resolve || t == ro.resolveTop || t == ro.createInstance || ro.creators[cal]) {
+			return true
+		}
+		switch cal.Name() {
+		case "Get", "GetKeyed", "GetGroup":
+			rn := recvNamed(cal)
+			if rn == nil || rn.Obj().Pkg() == nil || !strings.HasPrefix(rn.Obj().Pkg().Path(), modPath) {
+				return false
+			}
+			switch rn.Obj().Name() {
+			case "scope", "provider", "Scope", "Provider", "DependencyResolver":
+				return true
+			}
+		}
+		return false
+	}
+	n := 0
+	for _, fi := range w.FuncsOf(w.Godi) {
+		info := fi.Pkg.TypesInfo
+		errOf := map[types.Object]string{}
+		ast.Inspect(fi.Decl.Body, func(x ast.Node) bool {
+			if _, isLit := x.(*ast.FuncLit); isLit {
+				return false
+			}
+			if as, ok := x.(*ast.AssignStmt); ok && len(as.Rhs) == 1 && len(as.Lhs) >= 2 {
+				if c, ok := unparen(as.Rhs[0]).(*ast.CallExpr); ok && isRes(callee(info, c)) {
+					if o := objOf(info, as.Lhs[len(as.Lhs)-1]); o != nil && isErrorType(o.Type()) {
+						errOf[o] = exprStr(c.Fun)
+					}
+				}
+			}
+			return true
+		})
+		if len(errOf) == 0 {
+			continue
+		}
+		fl := w.FlowOf(fi)
+		sol := fl.Solve(Spec{Must: true,
+			Node: func(nd ast.Node, in Facts) (gen, kill []string) {
+				if as, ok := nd.(*ast.AssignStmt); ok {
+					for _, l := range as.Lhs {
+						if o := objOf(info, l); o != nil {
+							if _, tracked := errOf[o]; tracked {
+								kill = append(kill, "failed:"+o.Name())
+							}
+						}
+					}
+				}
+				return
+			},
+			Edge: func(b *cfg.Block, i int, cond ast.Expr, in Facts) (gen, kill []string) {
+				if cond == nil {
+					return
+				}
+				// a predicate on the error (errors.Is(err, X), IsNotFound(err)): true implies err != nil
+				{
+					c, neg := unparen(cond), false
+					if u, isU := c.(*ast.UnaryExpr); isU && u.Op == token.NOT {
+						c, neg = unparen(u.X), true
+					}
+					if call, isC := c.(*ast.CallExpr); isC {
+						if tv, okT := info.Types[call]; okT && tv.Type != nil {
+							if b, isB := tv.Type.Underlying().(*types.Basic); isB && b.Kind() == types.Bool {
+								for _, a := range call.Args {
+									if o := objOf(info, a); o != nil {
+										if _, tracked := errOf[o]; tracked && (i == 0) != neg {
+											gen = append(gen, "failed:"+o.Name())
+										}
+									}
+								}
+							}
+						}
+						return
+					}
+				}
+				be, ok := unparen(cond).(*ast.BinaryExpr)
+				if !ok || (be.Op != token.NEQ && be.Op != token.EQL) {
+					return
+				}
+				var o types.Object
+				if isNilIdent(info, be.Y) {
+					o = objOf(info, be.X)
+				} else if isNilIdent(info, be.X) {
+					o = objOf(info, be.Y)
+				}
+				if _, tracked := errOf[o]; !tracked {
+					return
+				}
+				if (be.Op == token.NEQ) == (i == 0) {
+					gen = append(gen, "failed:"+o.Name())
+				} else {
+					kill = append(kill, "failed:"+o.Name())
+				}
+				return
+			}})
+		k := 0
+		for o, what := range errOf {
+			for _, ex := range fl.Exits() {
+				if ex.Panic || !sol.AtExit(ex).Has("failed:"+o.Name()) {
+					continue
+				}
+				n++
+				k++
+				kept := false
+				if ex.Ret != nil {
+					for _, res := range ex.Ret.Results {
+						if usesObj(info, res, o) {
+							kept = true
+						}
+					}
+					// named results: `err` is the result variable itself
+					if len(ex.Ret.Results) == 0 && fi.Decl.Type.Results != nil {
+						for _, f := range fi.Decl.Type.Results.List {
+							for _, nm := range f.Names {
+								if info.Defs[nm] == o {
+									kept = true
+								}
+							}
+						}
+					}
+				}
+				r.Check(kept, rule, fmt.Sprintf("%s#resolution-error:%s/%d", fi.Name(), o.Name(), k), ex.Pos, true,
+					"the failure of "+what+" is handed on",
+					fmt.Sprintf("the exit at %s is reached after %s failed (%s != nil) and does not hand that error on: the constructor's own error (or the disposed / not-found error) is swallowed or replaced by the outcome of something else", w.Pos(ex.Pos), what, o.Name()))
+			}
+		}
+	}
+	if n == 0 {
+		r.Fail(rule, "godi#resolution-errors", token.NoPos, "no failure edge of a resolution call found in the root package")
+	}
+}
+
+// ruleWhoStores: setInstance / setSingleton are called only from the creation
+// chain (createInstance, the wrappers through which it is reached, and their
+// private helpers): what enters an instance table was produced, just now, by the
+// constructor of the descriptor it is filed under. A second caller (a "supply a
+// value" API, a preload, an import) can file a caller-owned value under a
+// singleton descriptor - setInstance sends it to the provider-wide table.
+func ruleWhoStores(w *World, r *Report, rule string) {
+	ro := resolveRoles(w)
+	chain := map[*FuncInfo]string{}
+	if ro.createInstance != nil {
+		chain[ro.createInstance] = ro.createInstance.Name()
+	}
+	for c := range ro.creators {
+		if t := w.Decls[c]; t != nil {
+			chain[t] = t.Name()
+		}
+	}
+	if ro.setInstance != nil {
+		chain[ro.setInstance] = ro.setInstance.Name() // setInstance's Singleton clause calls setSingleton
+	}
+	chain = w.HelperClosure(chain)
+	n := 0
+	for _, target := range []*FuncInfo{ro.setInstance, ro.setSingleton} {
+		if target == nil {
+			continue
+		}
+		var callers []*FuncInfo
+		for c := range w.Callers()[target] {
+			callers = append(callers, c)
+		}
+		sort.Slice(callers, func(i, j int) bool { return callers[i].Decl.Pos() < callers[j].Decl.Pos() })
+		for _, c := range callers {
+			n++
+			_, ok := chain[c]
+			r.Check(ok, rule, fmt.Sprintf("%s#calls:%s", c.Name(), target.Obj.Name()), c.Decl.Pos(), false,
+				"called from the creation chain",
+				fmt.Sprintf("%s calls %s outside the creation chain: a value that no constructor of this container produced for that descriptor enters an instance table (for a Singleton descriptor it replaces the provider-wide instance: earlier consumers keep the old one, everybody else gets the new one, and it outlives the scope that supplied it)", c.Name(), target.Obj.Name()))
+		}
+	}
+	if n == 0 {
+		r.Fail(rule, "setInstance#callers", token.NoPos, "setInstance / setSingleton have no callers")
+	}
+}
+
+// ruleNoWriteUnderEscapedHeader: a slice field of a scope or provider whose
+// header is copied into a local under the lock and used after the lock is
+// released (the snapshot idiom of Close, a listener dispatch) must never have an
+// element overwritten in place: the copy shares the backing array, so the reader
+// sees the overwritten slot (a nil listener, a moved element) without any lock.
+// Appending and replacing the whole slice are fine.
+func ruleNoWriteUnderEscapedHeader(w *World, r *Report, rule string, la *LockAnalysis) {
+	isShared := func(v *types.Var) bool {
+		if _, ok := v.Type().Underlying().(*types.Slice); !ok {
+			return false
+		}
+		o := ownerOfFieldRaw(w, v)
+		return o == "scope" || o == "provider"
+	}
+	// (a) headers that escape their critical section
+	escaped := map[*types.Var]token.Pos{}
+	for _, u := range la.units {
+		info := u.pkg.TypesInfo
+		alias := map[types.Object]*types.Var{}
+		defHeld := map[types.Object]map[string]string{}
+		for _, n := range u.flow.Nodes() {
+			as, ok := n.(*ast.AssignStmt)
+			if !ok || len(as.Lhs) != len(as.Rhs) {
+				continue
+			}
+			for i, rh := range as.Rhs {
+				fv := plainFieldOf(info, rh)
+				if fv == nil || !isShared(fv) {
+					continue
+				}
+				if o := objOf(info, as.Lhs[i]); o != nil {
+					alias[o] = fv
+					defHeld[o] = heldLockFields(la, la.HeldAt(n))
+				}
+			}
+		}
+		if len(alias) == 0 {
+			continue
+		}
+		for _, n := range u.flow.Nodes() {
+			held := heldLockFields(la, la.HeldAt(n))
+			ast.Inspect(n, func(x ast.Node) bool {
+				id, ok := x.(*ast.Ident)
+				if !ok {
+					return true
+				}
+				o := info.Uses[id]
+				fv := alias[o]
+				if fv == nil {
+					return true
+				}
+				for lock := range defHeld[o] {
+					if _, still := held[lock]; !still {
+						if _, seen := escaped[fv]; !seen {
+							escaped[fv] = id.Pos()
+						}
+					}
+				}
+				return true
+			})
+		}
+	}
+	// (b) element writes
+	n := 0
+	for _, a := range collectAccesses(w, la, isShared) {
+		if a.Kind != "index-write" {
+			continue
+		}
+		n++
+		pos, esc := escaped[a.Field]
+		owner := ownerOfFieldRaw(w, a.Field)
+		r.Check(!esc, rule, fmt.Sprintf("%s#element-write:%s.%s/%d", unitName(a.Unit), owner, a.Field.Name(), n), a.Pos(), true,
+			"no header of this slice leaves its critical section",
+			fmt.Sprintf("an element of %s.%s is overwritten in place, but the slice's header is copied under the lock and used after it is released (at %s): the reader walks the same backing array and sees the overwritten slot - a nil or a moved element - without synchronisation", owner, a.Field.Name(), w.Pos(pos)))
+	}
+	var es []string
+	for fv := range escaped {
+		es = append(es, ownerOfFieldRaw(w, fv)+"."+fv.Name())
+	}
+	sort.Strings(es)
+	if n == 0 {
+		r.OK(rule, "godi#element-writes:none", token.NoPos, false, "no slice field of scope / provider has an element overwritten in place (slices whose header leaves its critical section: %v)", es)
+	}
+}
+
+// ruleConstructedIsStored: what reaches setInstance is what the constructor
+// produced. In the creation chain the variable handed to setInstance is never
+// reassigned from a call that takes its previous value (instance =
+// decorate(instance)): the constructed value is dropped there, and whether it is
+// ever closed depends on the replacement implementing Disposable and forwarding
+// Close. A decorating feature has to store (track) the constructed value as well.
+func ruleConstructedIsStored(w *World, r *Report, rule string) {
+	ro := resolveRoles(w)
+	n, bad := 0, 0
+	for _, fi := range w.Within(ro.createInstance, 2) {
+		if fi == ro.setInstance || fi == ro.setSingleton {
+			continue
+		}
+		info := fi.Pkg.TypesInfo
+		stored := map[types.Object]bool{}
+		for _, c := range callsIn(fi.Decl.Body, true) {
+			if cal := callee(info, c); cal != nil && ro.setInstance != nil && cal == ro.setInstance.Obj {
+				n++
+				for _, a := range c.Args {
+					if tv, ok := info.Types[a]; ok && types.IsInterface(tv.Type) {
+						if o := objOf(info, a); o != nil {
+							stored[o] = true
+						}
+					}
+				}
+			}
+		}
+		if len(stored) == 0 {
+			continue
+		}
+		k := 0
+		ast.Inspect(fi.Decl.Body, func(x ast.Node) bool {
+			as, ok := x.(*ast.AssignStmt)
+			if !ok || len(as.Rhs) != 1 {
+				return true
+			}
+			c, ok := unparen(as.Rhs[0]).(*ast.CallExpr)
+			if !ok {
+				return true
+			}
+			for _, l := range as.Lhs {
+				o := objOf(info, l)
+				if o == nil || !stored[o] {
+					continue
+				}
+				for _, a := range c.Args {
+					if objOf(info, a) == o {
+						bad++
+						k++
+						r.Fail(rule, fmt.Sprintf("%s#replaced-before-stored:%s/%d", fi.Name(), o.Name(), k), as.Pos(),
+							"%s replaces the constructed value by the result of %s before it is handed to setInstance: the value the constructor produced is dropped - if the replacement has no Close method (a wrapper around an interface without Close) the constructed instance is never tracked and never closed", fi.Name(), exprStr(c.Fun))
+					}
+				}
+			}
+			return true
+		})
+	}
+	if n == 0 {
+		r.Fail(rule, "createInstance#stores", token.NoPos, "the creation chain never calls setInstance")
+	} else if bad == 0 {
+		r.OK(rule, ro.createInstance.Name()+"#constructed-is-stored", ro.createInstance.Decl.Pos(), false, "%d calls of setInstance in the creation chain: the stored variable is never reassigned from a call on its own previous value", n)
 	}
 }
